@@ -9,7 +9,8 @@ input columns [lo, hi), `D k` k-th derivative sample, `P k` pointwise function o
 Lines:
   `new <stage> <dim> <ann> <s0> <p1> <p2>`   → `ok`
   `push <len> <gap>`                         → `ok <blocks>` | `err <Err>`   (continuous stages)
-  `ev <start> <stop> <e1,e2,…>`              → `ok <blocks>` | `err <Err>`   (event_rate)
+  `ev <start> <stop> <e1,e2,…> [q]`          → `ok <blocks>` | `err <Err>`   (event_rate; `q`: this
+                                               Events object has sampling rate fs/q instead of fs)
 A block is `s0;fs;ch;md;n;cells`; for non-annotated streams the first four fields are `_`.
 -/
 namespace Psi.Driver.Stages
@@ -75,7 +76,7 @@ inductive StageSt
   | derivative (st : Option (P Cell))
   | pointwise
   | autoTh (baseline : Nat) (st : AutoSt Cell Rate String String (Option Nat))
-  | eventRate (size step : Nat) (st : Option RateSt)
+  | eventRate (size step : Nat) (st : Option (RateSt Rate))
   | dead
 
 structure St where
@@ -128,17 +129,18 @@ def push (s : St) (len : Nat) (gap : Int) : St × String :=
   | .eventRate .. => (s, "bad-op")
   | .dead => (s, "err Dead")
 
-def showRateBlocks (step : Nat) (l : List (Nat × List Nat)) : String :=
+def showRateBlocks (l : List (PD Nat Rate String String)) : String :=
   if l.isEmpty then "ok -" else
-  "ok " ++ "|".intercalate (l.map fun (s0x2, counts) =>
-    s!"{s0x2}/2;fs/{step};chdef;mdempty;{counts.length};{showList counts}")
+  "ok " ++ "|".intercalate (l.map fun b =>
+    s!"{b.s0}/2;{showRate b.ann.fs};{b.ann.channel};{b.ann.metadata};{b.data.length};{showList b.data}")
 
-def pushEv (s : St) (start stop : Nat) (evs : List Nat) : St × String :=
+def pushEv (s : St) (start stop : Nat) (evs : List Nat) (fs : Rate) : St × String :=
   match s.stage with
   | .eventRate size step st =>
-    match eventRateStep size step st { events := evs, start := start, stop := stop } with
+    match eventRateStep divFs "chdef" "mdempty" size step st
+        { events := evs, start := start, stop := stop, fs := fs } with
     | .error e => ({ s with stage := .dead }, s!"err {showErr e}")
-    | .ok (bs, st') => ({ s with stage := .eventRate size step st' }, showRateBlocks step bs)
+    | .ok (bs, st') => ({ s with stage := .eventRate size step st' }, showRateBlocks bs)
   | .dead => (s, "err Dead")
   | _ => (s, "bad-op")
 
@@ -172,8 +174,12 @@ def step (s : St) (ws : List String) : St × String :=
     | _, _ => (s, "bad-op")
   | ["ev", start, stop, evs] =>
     match parseNat? start, parseNat? stop, parseNats? evs with
-    | some a, some b, some l => pushEv s a b l
+    | some a, some b, some l => pushEv s a b l []
     | _, _, _ => (s, "bad-op")
+  | ["ev", start, stop, evs, q] =>
+    match parseNat? start, parseNat? stop, parseNats? evs, parseNat? q with
+    | some a, some b, some l, some q => pushEv s a b l [q]
+    | _, _, _, _ => (s, "bad-op")
   | _ => (s, "bad-op")
 
 def main : IO Unit := run {} step
